@@ -8,10 +8,10 @@ rmdir $wt
 git -C /repo worktree add --detach -q $wt HEAD || exit 2
 trap 'git -C /repo worktree remove --force $wt >/dev/null 2>&1; rm -rf $wt' EXIT
 # working-tree versions of the contract hook files
-for f in $(cd /repo && ls */zz_contracts_verif.go zz_contracts_verif.go */*/zz_contracts_verif.go 2>/dev/null); do cp /repo/$f $wt/$f; done
+if [ "${USE_HEAD_CONTRACTS:-0}" != 1 ]; then for f in $(cd /repo && ls */zz_contracts_verif.go zz_contracts_verif.go */*/zz_contracts_verif.go 2>/dev/null); do cp /repo/$f $wt/$f; done; fi
 if ! git -C $wt apply $patch; then echo "PATCH DOES NOT APPLY"; exit 3; fi
 if [ "${RUN_TESTS:-0}" = 1 ]; then (cd $wt && go build ./... && go test -vet=off -count=1 ./... 2>&1 | grep -v "no test files" | tail -6); fi
 rc=0
 for p in "$@"; do
-  VERIF_EVIDENCE_DIR=$wt/.evidence /verif/bin/govc check $p --repo $wt -q ${GOVC_FLAGS:-} | sed "s#$wt#<scratch>#g" | grep -E "VIOLATION|KNOWN|property " ; 
+  VERIF_EVIDENCE_DIR=$wt/.evidence ${GOVC:-/verif/bin/govc} check $p --repo $wt -q ${GOVC_FLAGS:-} | sed "s#$wt#<scratch>#g" | grep -E "VIOLATION|KNOWN|property " ; 
 done
